@@ -210,7 +210,8 @@ def gen_dense(rnd, hid, mods, flags, depth):
                ("sub", 3 if types else 0), ("unsub", 2 if subs else 0), ("cadd", 4 if types and ents else 0),
                ("cupd", 6 if comps else 0), ("cdel", 2 if comps else 0), ("edel", 1 if mine else 0), ("pose", 2 if mine else 0),
                ("custom", 1), ("action", 2 if ents and "vikja" in mods else 0), ("asset", 1 if mine and "odal" in mods else 0),
-               ("list", 1 if types else 0), ("disc", 1 if len(ms) > 1 else 0), ("switch", 0.5 if len(ms) > 1 else 0), ("tick", 2)]
+               ("list", 1 if types else 0), ("disc", 1 if len(ms) > 1 else 0), ("switch", 0.5 if len(ms) > 1 else 0), ("tick", 2),
+               ("pose_del_add", 1 if mine else 0)]
         op = rnd.choices([o for o, _ in ops], [w for _, w in ops])[0]
         if op == "join":
             d = rnd.choice(free)
@@ -270,6 +271,29 @@ def gen_dense(rnd, hid, mods, flags, depth):
                 req(c, k="Join", sid=0)
                 leave(c)
                 joined[c] = 2
+        elif op == "pose_del_add":
+            # within one frame: an update of an entity is parked, the entity is deleted, its owner (or somebody else) adds
+            # a new one; the parked update must die with the entity
+            e = rnd.choice(mine)
+            n[0] += 1
+            steps.append({"step": "Recv", "conn": c, "req": {"k": "Pose", "rid": n[0], "ts": n[0], "eid": e, "px": rnd.choice([5, 6, 7])}})
+            if (1, e) in comps and rnd.random() < 0.5:
+                n[0] += 1
+                steps.append({"step": "Recv", "conn": c, "req": {"k": "CompUpdate", "rid": n[0], "ts": n[0], "tid": 1, "eid": e, "data": 3}})
+            req(c, k="EntityDelete", eid=e)
+            del ents[e]
+            for k in list(comps):
+                if k[1] == e:
+                    comps.discard(k)
+            adder = c if rnd.random() < 0.7 else rnd.choice(ms)
+            p = rnd.random() < 0.3
+            req(adder, k="EntityAdd", persist=p, flag=0, px=1)
+            ecur[0] += 1
+            ents[ecur[0]] = (adder, p)
+            known.setdefault(adder, set()).add(ecur[0])
+            steps.append({"step": "Tick", "sid": 1})
+            for d in conns:
+                steps.append({"step": "Proc", "conn": d})
         elif op == "custom":
             req(c, k="Custom", len=rnd.choice([1, 5, 10240, 10241]), dig=n[0], to=rnd.choice([[], [], [1, 2], [2, 3, 2], [9]]))
         elif op == "action":
